@@ -73,7 +73,7 @@ class World(BaseWorld):
         else:
             flags = [rc.choice(SPACES) for _ in range(npool)]
         types = rc.choice(TYPESETS[r])
-        n = rc.randrange(2, 16)
+        n = rc.randrange(2, 16) if tier != 'thorough' else rc.randrange(2, 36)
         w = {'bin': rc.uniform(2, 6), 'dot': rc.uniform(0.5, 2), 'invert': rc.uniform(0.3, 1.5), 'copy': rc.uniform(0.2, 1),
              'setitem': rc.uniform(0.3, 1.5), 'getitem': rc.uniform(0.2, 1), 'badtype': rc.uniform(0, 0.4),
              'new_identity': rc.uniform(0, 0.8)}
